@@ -297,6 +297,42 @@ Definition oracle_c08 (k : acase) (o : obs) : list Z :=
   | None => []
   end.
 
+(* the special-operand cells of the iterative functions: the table applied to the implementation's
+   result, and the model's prologue compared with it (cells the prologue leaves to the iteration: nothing) *)
+Inductive fop := FSqrt | FCbrt | FExp | FLn | FLog10 | FPow.
+Definition sop_of_fop (f : fop) : sop :=
+  match f with FSqrt => SSqrt | FCbrt => SCbrt | FExp => SExp | FLn => SLn | FLog10 => SLog10 | FPow => SPow end.
+
+Definition oracle_c08_fn (f : fop) (c : ctx) (x y : dec) (o : obs) : list Z :=
+  if system_err (o_err o) then [] else
+  match special_table (sop_of_fop f) (rounder_eqb (rounding c) RFloor) x y with
+  | Some e => flag (expect_ok e (o_dec o) (o_cond o)) O_SPECIAL
+  | None => []
+  end.
+
+Definition model_prologue (f : fop) (c : ctx) (x y : dec) : res (option result) :=
+  match f with
+  | FSqrt => root_specials go_est c x 2
+  | FCbrt => root_specials go_est c x 3
+  | FLn | FLog10 => log_specials go_est c x
+  | FExp => Ok (exp_specials c x)
+  | FPow => pow_specials go_est c x y
+  end.
+
+Definition corr_prologue (f : fop) (c : ctx) (x y : dec) (o : obs) : list Z :=
+  match model_prologue f c x y with
+  | Ok (Some r) =>
+      flag (err_eqb (rerr r) (o_err o)) K_ERR
+      ++ (if system_err (rerr r) then []
+          else flag (cond_eqb (rcond r) (o_cond o)) K_COND
+               ++ match rdec r with
+                  | Some d => flag (if is_finite d then dec_eqb d (o_dec o) else same_value d (o_dec o)) K_DEST_VALUE
+                  | None => []
+                  end)
+  | Ok None => []
+  | _ => [K_MODEL_PANIC]
+  end.
+
 (* ====================================================================================== *)
 (* C09: Quantize / RoundToIntegral / Ceil / Floor                                          *)
 
